@@ -153,6 +153,9 @@ func NewFull(c *Chain, rootDir string, da *world.DADbl) (*Full, error) {
 	if f.DA == nil {
 		f.DA = world.NewDADbl(0)
 	}
+	if o.RefExec {
+		f.Exec.Ref = world.NewKVRef(f.Raw)
+	}
 	n, err := world.NewNode(context.Background(), o, f.Raw, nil, c.P.N.PubKey, f.Exec, world.NewSeqDbl(func() time.Time { return pw.GenesisTime }), f.DA)
 	if err != nil {
 		return nil, err
@@ -314,6 +317,9 @@ func (f *Full) RestartOn(raw *world.CrashDS, clean bool) error {
 		f.Errors = nil // what the dying process reported is not the new process's error
 	}
 	f.Raw = raw
+	if f.Opts.RefExec {
+		f.Exec.Ref = world.NewKVRef(raw) // the executor's database is part of what survived
+	}
 	n, err := f.N.Restart(context.Background(), raw, nil, f.Exec, world.NewSeqDbl(func() time.Time { return pw.GenesisTime }), f.DA)
 	if err != nil {
 		return err
